@@ -130,7 +130,9 @@ def gen_ws(rnd):
     for strat in ("root", "some", "all", "root_mp"):
         r = {"cwd": rnd.choice(cwds) if rnd.random() < 0.7 else "ws", "mp": None, "all": strat == "all", "packages": [],
              "check": rnd.random() < 0.35, "mf": rnd.choice([None, None, None, "short", "json", "human", "xml"]),
-             "opts": rnd.choice([[], [], ["--config", "max_width=50"], ["-l"], ["--check"], ["--emit=files"], ["-v", "--files-with-diff"], ["--config-path", "fmt"], ["fmt", "--color", "fmt"]]),
+             "opts": rnd.choice([[], [], ["--config", "max_width=50"], ["-l"], ["--check"], ["--emit=files"], ["-v", "--files-with-diff"], ["--config-path", "fmt"], ["fmt", "--color", "fmt"],
+                                 ["--config", "max_width=50", "--config", "tab_spaces=2"], ["-v", "-v"], ["--config", "max_width=50", "--config", "max_width=50"],
+                                 ["--check", "--config", "tab_spaces=2", "--check"]]),
              "via_cargo": True,
              "quiet": rnd.random() < 0.2, "statuses": {}}
         if rnd.random() < 0.25 or strat == "root_mp":
